@@ -128,7 +128,10 @@ class AddressMixin:
 
     @staticmethod
     def quote_sheet(sheet):
-        if ' ' in sheet:
+        # only letters, digits, _ and . (and no leading digit) do not need
+        # quotes: P&L, Q1-Q2, 2024 or Costs+1 would be read as an expression
+        if sheet and (sheet[0].isdigit() or not all(
+                c.isalnum() or c in '_.' for c in sheet)):
             sheet = quote_sheetname(sheet)
         return sheet
 
